@@ -25,7 +25,16 @@ func genC20(t *rapid.T) srvCase {
 		b := (a + 1 + rapid.IntRange(0, 1).Draw(t, "b")) % 3
 		ops = append([]sop{{Op: "attach", P: a, Q: b}, {Op: "attach", P: b, Q: a}}, ops...)
 	}
-	return srvCase{Ops: ops}
+	// an honest send is often followed by a forged "retransmission" of the same message seqno
+	var out []sop
+	for _, op := range ops {
+		out = append(out, op)
+		if op.Op == "send" && op.Kind == "honest" && rapid.IntRange(0, 2).Draw(t, "follow") == 0 {
+			out = append(out, sop{Op: "send", P: op.P, Q: op.Q, Epoch: "current", Reuse: true,
+				Kind: rapid.SampledFrom([]string{"tampered-body", "tampered-sig", "other-signer", "unsigned", "other-context"}).Draw(t, "fkind")})
+		}
+	}
+	return srvCase{Ops: out}
 }
 
 func checkC20(c srvCase) (o vstat.Outcome) {
